@@ -13,11 +13,47 @@ TOL_S = 1e-3 + 1e-6      # "same instant to within one millisecond" (+ float sla
 
 ASSUMPTIONS = [
     "reference calendar = Python datetime/calendar (proleptic Gregorian, no leap seconds, as tracklib documents)",
-    "domain 1970-01-01 .. 2099-12-31, millisecond resolution, time zone 0",
+    "domain 1970-01-01 .. 2099-12-31, millisecond resolution",
+    "time-zone label: a timestamp may carry any whole-hour label -12..+14 (constructor argument zone=, in-place assignment of .zone "
+    "as Track.setTimeZone does, result of convertToZone); 0 is one of the values. On this code base the calendar fields ARE the instant "
+    "(toAbsTime, the comparisons and the difference read the fields only; convertToZone shifts the fields and sets the label), so every "
+    "judged call is judged on the fields exactly as for label 0: well-formed fields, seconds = calendar of the fields, order = order of "
+    "the seconds, add n = the fields move by n. Which label a result carries is nowhere documented and is not judged",
     "lives: the calendar fields are public attributes and may be assigned well-formed int values in place at any time (also on a copy()); "
     "every later conversion / comparison / difference / offset is judged against the fields the object holds at the time of that call; "
-    "copy() itself is not judged (the fields the copy shows are taken as its state)",
+    "copy() itself is not judged (the fields the copy shows are taken as its state); likewise convertToZone(z) is a history step, not "
+    "a judged call: the object it returns is taken with the fields and the label it shows (documented effect: fields shifted by "
+    "3600 s x (z - old label); deviations are only counted)",
 ]
+
+# --- the time-zone label ----------------------------------------------------------------------------
+ZONE_LO, ZONE_HI = -12, 14
+NZ = (1, 2, -5, 12, -11, 14, -1)          # fixed non-zero labels for the enumerated sub-checks
+
+
+def strat_zone():
+    return st.one_of(st.just(0), st.sampled_from(NZ), st.integers(ZONE_LO, ZONE_HI))
+
+
+def strat_zone2():
+    """labels of two timestamps: both 0 (as ever) / the same label / two different labels"""
+    nz = st.one_of(st.sampled_from(NZ), st.integers(ZONE_LO, ZONE_HI))
+    def mk(t):
+        mode, z1, z2 = t
+        if mode == 0:
+            return (0, 0)
+        if mode == 1:
+            return (z1, z1)
+        return (z1, z2 if z2 != z1 else (0 if z1 else 1))
+    return st.tuples(st.sampled_from([0, 0, 1, 1, 2, 2]), nz, nz).map(mk)
+
+
+def _zone_ok(z):
+    return isinstance(z, int) and not isinstance(z, bool) and ZONE_LO <= z <= ZONE_HI
+
+
+def _zcls(*zs):
+    return "zone-label-nonzero" if any(zs) else "zone-label-0"
 
 
 def _wellformed(t, what):
@@ -33,31 +69,35 @@ def _fields(t):
     return (t.year, t.month, t.day, t.hour, t.min, t.sec, t.ms)
 
 
-def _check_instant(ms):
-    """both conversion directions for one instant given in epoch milliseconds"""
+def _check_instant(ms, zone=0, back=True):
+    """both conversion directions for one instant given in epoch milliseconds; the timestamp object carries the
+    time-zone label `zone` (back=False: only the directions that start from the labelled object)"""
     ref = gen.fields_of_ms(ms)
     s = ms / 1000.0
+    lab = " [label %+d]" % zone if zone else ""
     # calendar -> seconds
-    t = ObsTime(*ref)
+    t = ObsTime(*ref, zone=zone) if zone else ObsTime(*ref)
     got = t.toAbsTime()
     if abs(got - s) > 1e-6:
-        raise Violation("toAbsTime-wrong", "ObsTime%s.toAbsTime() = %r, calendar says %r" % (ref, got, s))
+        raise Violation("toAbsTime-wrong", "ObsTime%s%s.toAbsTime() = %r, calendar says %r" % (ref, lab, got, s))
     # seconds -> calendar
-    r = ObsTime.readUnixTime(s)
-    _wellformed(r, "readUnixTime(%r)" % s)
-    if ms % 1000 == 0:
-        if _fields(r) != ref:
-            raise Violation("readUnixTime-wrong", "readUnixTime(%r) = %s, calendar says %s" % (s, _fields(r), ref))
-    else:
-        back = gen.ms_of_obstime(r)
-        if abs(back - ms) > 1:
-            raise Violation("readUnixTime-drift", "readUnixTime(%r) = %s is %d ms away" % (s, _fields(r), back - ms))
+    if back:
+        r = ObsTime.readUnixTime(s)
+        _wellformed(r, "readUnixTime(%r)" % s)
+        if ms % 1000 == 0:
+            if _fields(r) != ref:
+                raise Violation("readUnixTime-wrong", "readUnixTime(%r) = %s, calendar says %s" % (s, _fields(r), ref))
+        else:
+            d = gen.ms_of_obstime(r)
+            if abs(d - ms) > 1:
+                raise Violation("readUnixTime-drift", "readUnixTime(%r) = %s is %d ms away" % (s, _fields(r), d - ms))
     # round trip through the library only
     rt = ObsTime.readUnixTime(got)
+    _wellformed(rt, "readUnixTime(toAbsTime(%s%s))" % (ref, lab))
     if abs(rt.toAbsTime() - s) > TOL_S:
-        raise Violation("roundtrip-drift", "readUnixTime(toAbsTime(%s)) = %s" % (ref, _fields(rt)))
-    if ms % 1000 == 0 and rt != t:
-        raise Violation("roundtrip-not-identical", "readUnixTime(toAbsTime(%s)) = %s" % (ref, _fields(rt)))
+        raise Violation("roundtrip-drift", "readUnixTime(toAbsTime(%s%s)) = %s" % (ref, lab, _fields(rt)))
+    if ms % 1000 == 0 and (rt != t or _fields(rt) != ref):
+        raise Violation("roundtrip-not-identical", "readUnixTime(toAbsTime(%s%s)) = %s" % (ref, lab, _fields(rt)))
 
 
 def _near_boundary(ms):
@@ -73,14 +113,20 @@ def _mix(n):
 
 def enum_days(tier):
     for d in range(gen.N_DAYS):
-        yield {"day": d}
+        yield {"day": d, "zone": NZ[d % len(NZ)]}
 
 
 def body_day(case):
     d = case["day"]
+    z = case.get("zone", 0)
+    if not _zone_ok(z):
+        return {"undef": True}
     base = d * DAY
     for off in (0, 43200000, 86399000, 86399999, _mix(d)):
         _check_instant(base + off)
+    if z:                                      # the same day through timestamps that carry a time-zone label
+        for off in (0, 86399999, _mix(d)):
+            _check_instant(base + off, z, back=False)
     y, mo, dd = gen.fields_of_ms(base)[:3]
     last = calendar.monthrange(y, mo)[1]
     cls = []
@@ -90,6 +136,7 @@ def body_day(case):
         cls.append("year-boundary-day")
     if mo == 2 and dd == 29:
         cls.append("feb29")
+    cls.append(_zcls(z))
     return {"nt": True, "cls": cls}          # every day carries instants within 1 s of a day boundary
 
 
@@ -105,51 +152,65 @@ def _boundary_days():
 
 
 def enum_seconds(tier):
-    for d in _boundary_days():
+    for k, d in enumerate(_boundary_days()):
         if tier == "quick":
-            yield {"day": d, "lo": 0, "hi": 86400, "step": 997}
+            yield {"day": d, "lo": 0, "hi": 86400, "step": 997, "zone": NZ[k % len(NZ)]}
         else:
             for h in range(24):
-                yield {"day": d, "lo": h * 3600, "hi": (h + 1) * 3600, "step": 1}
+                yield {"day": d, "lo": h * 3600, "hi": (h + 1) * 3600, "step": 1, "zone": NZ[(k + h) % len(NZ)]}
 
 
 def body_seconds(case):
     base = case["day"] * DAY
+    z = case.get("zone", 0)
+    if not _zone_ok(z):
+        return {"undef": True}
     secs = list(range(case["lo"], case["hi"], case["step"]))
     if case["step"] != 1:
         secs += [0, 1, 2, 86397, 86398, 86399]
     for s in secs:
         _check_instant(base + s * 1000)
-    return {"nt": True, "cls": ["seconds-%d" % len(secs)]}
+    if z:                                      # labelled timestamps: every 7th of these seconds + the first / last 3 of the day
+        for s in sorted(set(secs[::7]) | set(x for x in secs if x <= 2 or x >= 86397)):
+            _check_instant(base + s * 1000, z, back=False)
+    return {"nt": True, "cls": ["seconds-%d" % len(secs), _zcls(z)]}
 
 
 # --- (iii) random instants ----------------------------------------------------------------------
 def strat_instant():
-    return gen.ts_ms().map(lambda v: {"ms": v})
+    return st.tuples(gen.ts_ms(), strat_zone()).map(lambda t: {"ms": t[0], "zone": t[1]})
 
 
 def body_instant(case):
-    _check_instant(case["ms"])
+    z = case.get("zone", 0)
+    if not _zone_ok(z):
+        return {"undef": True}
+    _check_instant(case["ms"], z)
     nb = _near_boundary(case["ms"])
-    return {"nt": nb, "cls": ["near-boundary"] if nb else ["interior"]}
+    return {"nt": nb, "cls": ["near-boundary" if nb else "interior", _zcls(z)]}
 
 
 # --- (iii-b) arbitrary float seconds (ObsTime.random() and GPS epochs feed such values) ----------------
 def strat_float():
     us = st.one_of(st.sampled_from([0, 1, 499, 500, 501, 949, 950, 999]), st.integers(0, 999))
-    return st.tuples(gen.ts_ms(), us).map(lambda t: {"ms": t[0], "us": t[1]})
+    return st.tuples(gen.ts_ms(), us, strat_zone()).map(lambda t: {"ms": t[0], "us": t[1], "zone": t[2]})
 
 
 def body_float(case):
+    z = case.get("zone", 0)
+    if not _zone_ok(z):
+        return {"undef": True}
     s = case["ms"] / 1000.0 + case["us"] / 1e6
     r = ObsTime.readUnixTime(s)
     _wellformed(r, "readUnixTime(%r)" % s)
+    if z:
+        r.zone = z                             # the timestamp is tagged with a zone in place (as Track.setTimeZone does)
     back = r.toAbsTime()
     if abs(back - s) > TOL_S:
         raise Violation("readUnixTime-drift", "readUnixTime(%r) = %s denotes %r" % (s, _fields(r), back))
     ref = gen.fields_of_ms(case["ms"])
     nb = _near_boundary(case["ms"]) and case["ms"] % 1000 == 999
-    return {"nt": case["us"] > 0, "cls": ["last-ms-of-day" if (nb and ref[3:6] == (23, 59, 59)) else "other"]}
+    return {"nt": case["us"] > 0, "cls": ["last-ms-of-day" if (nb and ref[3:6] == (23, 59, 59)) else "other", _zcls(z)]}
 
 
 # --- (iv) ordering ------------------------------------------------------------------------------
@@ -180,12 +241,25 @@ def strat_pair():
     eq = gen.ts_ms().map(lambda v: {"a": v, "b": v})
     delta = st.tuples(gen.ts_ms(), st.sampled_from([-1, 1]), st.sampled_from([1, 1000, 60000, 3600000, DAY, 28 * DAY, 31 * DAY, 365 * DAY]),
                       st.integers(1, 3)).map(lambda t: {"a": t[0], "b": min(max(t[0] + t[1] * t[2] * t[3], 0), gen.MAX_MS)})
-    return st.one_of(free, free, same_year, same_year, near, near, near, delta, delta, delta, eq)
+    pairs = st.one_of(free, free, same_year, same_year, near, near, near, delta, delta, delta, eq)
+    # time-zone labels of the two timestamps: both 0 (as ever) / the same label / two labels
+    return st.tuples(pairs, strat_zone2()).map(lambda t: dict(t[0], za=t[1][0], zb=t[1][1]))
+
+
+def _labelled(ms, zone):
+    """ObsTime built field-wise that carries the time-zone label `zone`"""
+    t = gen.obstime_of_ms(ms)
+    if zone:
+        t = ObsTime(t.year, t.month, t.day, t.hour, t.min, t.sec, t.ms, zone)
+    return t
 
 
 def body_pair(case):
     a, b = case["a"], case["b"]
-    ta, tb = gen.obstime_of_ms(a), gen.obstime_of_ms(b)
+    za, zb = case.get("za", 0), case.get("zb", 0)
+    if not (_zone_ok(za) and _zone_ok(zb)):
+        return {"undef": True}
+    ta, tb = _labelled(a, za), _labelled(b, zb)
     want = {"<": a < b, ">": a > b, "==": a == b, "!=": a != b, "<=": a <= b, ">=": a >= b}
     got = {"<": ta < tb, ">": ta > tb, "==": ta == tb, "!=": ta != tb, "<=": ta <= tb, ">=": ta >= tb}
     for op in want:
@@ -197,7 +271,8 @@ def body_pair(case):
     fa, fb = gen.fields_of_ms(a), gen.fields_of_ms(b)
     first = next((i for i in range(7) if fa[i] != fb[i]), 7)
     names = ["year", "month", "day", "hour", "min", "sec", "ms", "equal"]
-    return {"nt": 1 <= first <= 6, "cls": ["decided-by-" + names[first]]}
+    return {"nt": 1 <= first <= 6, "cls": ["decided-by-" + names[first],
+                                           "zone-labels-0" if not (za or zb) else "zone-labels-equal" if za == zb else "zone-labels-differ"]}
 
 
 # --- (v) offsets --------------------------------------------------------------------------------
@@ -206,33 +281,35 @@ UNITS = {"sec": 1, "min": 60, "hour": 3600, "day": 86400}
 
 def strat_offset():
     def mk(t):
-        ms, unit, n = t
-        return {"ms": ms, "unit": unit, "n": n}
+        ms, unit, n, z = t
+        return {"ms": ms, "unit": unit, "n": n, "zone": z}
     mag = st.one_of(st.integers(0, 400), st.sampled_from([0, 1, 59, 60, 61, 23, 24, 25, 28, 29, 30, 31, 365, 366]),
                     st.integers(0, 100000))
     n = st.tuples(st.sampled_from([-1, 1]), mag).map(lambda t: t[0] * t[1])
-    return st.tuples(gen.ts_ms(), st.sampled_from(sorted(UNITS)), n).map(mk)
+    return st.tuples(gen.ts_ms(), st.sampled_from(sorted(UNITS)), n, strat_zone()).map(mk)
 
 
 def body_offset(case):
     ms, unit, n = case["ms"], case["unit"], case["n"]
+    z = case.get("zone", 0)
     target = ms + n * UNITS[unit] * 1000
-    if target < 0 or target > gen.MAX_MS:
+    if target < 0 or target > gen.MAX_MS or not _zone_ok(z):
         return {"undef": True}
-    t = gen.obstime_of_ms(ms)
+    t = _labelled(ms, z)
     before = (t.year, t.month, t.day, t.hour, t.min, t.sec, t.ms)
     r = {"sec": t.addSec, "min": t.addMin, "hour": t.addHour, "day": t.addDay}[unit](n)
-    _wellformed(r, "%s.add%s(%d)" % (before, unit, n))
+    lab = " [label %+d]" % z if z else ""
+    _wellformed(r, "%s%s.add%s(%d)" % (before, lab, unit, n))
     back = gen.ms_of_obstime(r)
     if abs(back - target) > 1:
-        raise Violation("add-wrong", "%s add %d %s = %s, off by %d ms" % (before, n, unit, _fields(r), back - target))
+        raise Violation("add-wrong", "%s%s add %d %s = %s, off by %d ms" % (before, lab, n, unit, _fields(r), back - target))
     if ms % 1000 == 0 and back != target:
-        raise Violation("add-wrong", "%s add %d %s = %s, off by %d ms" % (before, n, unit, _fields(r), back - target))
-    if _fields(t) != before:
+        raise Violation("add-wrong", "%s%s add %d %s = %s, off by %d ms" % (before, lab, n, unit, _fields(r), back - target))
+    if _fields(t) != before or t.zone != z:
         raise Violation("add-mutates", "add%s changed its receiver" % unit)
     fa, fb = gen.fields_of_ms(ms), gen.fields_of_ms(target)
     crossing = "year" if fa[0] != fb[0] else "month" if fa[1] != fb[1] else "day" if fa[2] != fb[2] else "none"
-    return {"nt": crossing != "none", "cls": ["cross-" + crossing, "neg" if n < 0 else "pos"]}
+    return {"nt": crossing != "none", "cls": ["cross-" + crossing, "neg" if n < 0 else "pos", _zcls(z)]}
 
 
 
@@ -260,12 +337,26 @@ def strat_life_(draw):
                        st.sampled_from([-DAY, -3600000, -1000, -1, 1, 1000, 3600000, DAY]).map(
                            lambda d: min(max(a + d, 0), gen.MAX_MS))))
     model = [list(gen.fields_of_ms(a)), list(gen.fields_of_ms(b))]
+    # time-zone labels the two objects are created with: none / the same / two different ones
+    zl = list(draw(strat_zone2()))
+    za, zb = zl
     steps = []
     focus = draw(st.integers(0, 1))                             # most steps work on one of the two objects
     for _ in range(draw(st.integers(3, 10))):
-        kind = draw(st.sampled_from(["abs", "abs", "set", "set", "set", "reuse", "copy", "cmp", "cmp", "add", "add", "rt"]))
+        kind = draw(st.sampled_from(["abs", "abs", "set", "set", "set", "reuse", "copy", "cmp", "cmp", "add", "add", "rt",
+                                     "label", "zone"]))
         s = draw(st.sampled_from([focus, focus, focus, 1 - focus]))
         f = model[s]
+        if kind in ("label", "zone"):
+            z = draw(strat_zone())
+            tgt = gen.ms_of_fields(*f) + 3600000 * (z - zl[s])
+            if kind == "zone" and 0 <= tgt <= gen.MAX_MS:       # convertToZone: fields shifted by the difference of the labels
+                steps.append(["zone", s, z])
+                model[s] = list(gen.fields_of_ms(tgt))
+            else:                                               # .zone assigned in place (Track.setTimeZone): fields stay
+                steps.append(["label", s, z])
+            zl[s] = z
+            continue
         if kind in ("abs", "rt"):
             steps.append([kind, s])
         elif kind == "cmp":
@@ -273,6 +364,7 @@ def strat_life_(draw):
         elif kind == "copy":
             steps.append(["copy", s, 1 - s])
             model[1 - s] = list(f)
+            zl[1 - s] = zl[s]
         elif kind == "reuse":                                   # the object is given all fields of another instant
             g = list(gen.fields_of_ms(draw(gen.ts_ms())))
             steps.append(["set", s, [[FIELDS[i], g[i]] for i in range(7)]])
@@ -313,7 +405,8 @@ def strat_life_(draw):
             steps.append(["add", s, unit, n, adopt])
             if adopt:
                 model[s] = list(gen.fields_of_ms(ms + n * UNITS[unit] * 1000))
-    return {"a": a, "b": b, "steps": steps}
+                zl[s] = 0                                       # (what the unchanged code does; the body reads the label off the object)
+    return {"a": a, "b": b, "za": za, "zb": zb, "steps": steps}
 
 
 def strat_life():
@@ -322,7 +415,10 @@ def strat_life():
 
 def body_life(case):
     m = [tuple(gen.fields_of_ms(case["a"])), tuple(gen.fields_of_ms(case["b"]))]     # fields each object holds now
-    obj = [ObsTime(*m[0]), ObsTime(*m[1])]
+    zl = [case.get("za", 0), case.get("zb", 0)]                                       # time-zone label each object carries now
+    if not (_zone_ok(zl[0]) and _zone_ok(zl[1])):
+        return {"undef": True}
+    obj = [ObsTime(*m[0], zone=zl[0]) if zl[0] else ObsTime(*m[0]), ObsTime(*m[1], zone=zl[1]) if zl[1] else ObsTime(*m[1])]
     conv = [False, False]          # a seconds-based call has been made on this object (or on the one it was copied from)
     stale = [False, False]         # ... and a field was assigned afterwards
     copied = [False, False]
@@ -339,6 +435,8 @@ def body_life(case):
                 cls.add(what + "-after-edit-of-copy")
         else:
             cls.add(what + "-unedited")
+        if zl[s]:
+            cls.add(what + "-on-zone-labelled")
         conv[s] = True
 
     def hist():
@@ -374,11 +472,42 @@ def body_life(case):
                 return {"undef": True}
             obj[d] = t.copy()
             m[d] = _fields(obj[d])                 # copy() itself is not this property's subject
-            if not _valid_fields(m[d]):
+            zl[d] = getattr(obj[d], "zone", 0)
+            if not _valid_fields(m[d]) or not _zone_ok(zl[d]):
                 return {"undef": True}
             conv[d], stale[d], copied[d] = conv[s], stale[s], True
             cls.add("copy")
             log.append("t%d=t%d.copy()" % (d, s))
+        elif kind == "label":
+            z = step[2] if len(step) > 2 else None
+            if not _zone_ok(z):
+                return {"undef": True}
+            t.zone = z
+            if _fields(t) != f:
+                raise Violation("history-field-assignment-lost", "after assigning zone=%s the object shows %s" % (z, _fields(t)))
+            if z != zl[s] and conv[s]:
+                stale[s] = True
+            zl[s] = z
+            cls.add("label-assigned")
+            log.append("t%d.zone=%d" % (s, z))
+        elif kind == "zone":
+            z = step[2] if len(step) > 2 else None
+            if not _zone_ok(z):
+                return {"undef": True}
+            tgt = gen.ms_of_fields(*f) + 3600000 * (z - zl[s])
+            if tgt < 0 or tgt > gen.MAX_MS:
+                cls.add("convertToZone-skipped-out-of-domain")
+                continue
+            r = t.convertToZone(z)                  # a history step, not a judged call: the result is taken as it shows itself
+            g, lab = _fields(r), getattr(r, "zone", None)
+            log.append("t%d=t%d.convertToZone(%d)" % (s, s, z))
+            if not _valid_fields(g) or not _zone_ok(lab):
+                return {"undef": True}
+            if abs(gen.ms_of_fields(*g) - tgt) > 1 or lab != z:
+                cls.add("convertToZone-not-as-documented")
+            obj[s], m[s], zl[s] = r, g, lab
+            conv[s], stale[s], copied[s] = False, False, False
+            cls.add("convertToZone" if lab else "convertToZone(0)")
         elif kind == "abs":
             want = gen.ms_of_fields(*f) / 1000.0
             got = t.toAbsTime()
@@ -429,13 +558,16 @@ def body_life(case):
             _wellformed(r, "%s add %d %s" % (f, n, unit))
             back = gen.ms_of_obstime(r)
             if abs(back - target) > 1 or (ms % 1000 == 0 and back != target):
-                raise Violation("history-add-wrong", "object showing %s add %d %s = %s, off by %d ms%s" % (
-                    f, n, unit, _fields(r), back - target, hist()))
-            if _fields(t) != f:
+                raise Violation("history-add-wrong", "object showing %s (zone label %+d) add %d %s = %s, off by %d ms%s" % (
+                    f, zl[s], n, unit, _fields(r), back - target, hist()))
+            if _fields(t) != f or t.zone != zl[s]:
                 raise Violation("add-mutates", "add%s changed its receiver" % unit)
             note(s, "add")
             if len(step) > 4 and step[4]:                   # go on with the returned object (fresh from readUnixTime)
-                obj[s], m[s] = r, _fields(r)
+                lab = getattr(r, "zone", 0)                 # which label the result carries is not documented: taken as shown
+                if not _zone_ok(lab):
+                    return {"undef": True}
+                obj[s], m[s], zl[s] = r, _fields(r), lab
                 conv[s], stale[s], copied[s] = False, False, False
                 cls.add("adopt-result")
                 log.append("t%d=result" % s)
@@ -449,11 +581,15 @@ RULE = ("days: every calendar day 1970-2099 x {00:00:00.000, 12:00, 23:59:59, 23
         "or every second (thorough); instants/pairs/offsets: Hypothesis, weighted to calendar boundaries. "
         "Non-trivial: instant within 1 s of a day/month/year boundary or on 29 Feb; pair whose order is decided by a field other "
         "than the year; offset that crosses a day/month/year boundary. "
-        "lives: two timestamp objects and 2-10 steps drawn from toAbsTime / round trip / six comparisons + difference with the other object / "
+        "Time-zone label: random sub-checks draw it per timestamp from {0} | {1, 2, -5, 12, -11, 14, -1} | -12..14 (a third 0; pairs: both 0 / "
+        "equal / two labels); the enumerated ones repeat 3 instants of every day and every 7th boundary second (+ first/last 3) with a "
+        "non-zero label that cycles with the day; float_seconds assigns .zone on the result before converting back. "
+        "lives: two timestamp objects (created with labels 0,0 / equal / different) and 2-10 steps drawn from assignment of .zone in place / "
+        "convertToZone(z) (object replaced by the result, taken as shown) /  toAbsTime / round trip / six comparisons + difference with the other object / "
         "addSec|Min|Hour|Day (optionally going on with the returned object) / copy() into the other slot / in-place assignment of one field "
         "(+-1, its minimum, its maximum, any legal value; the day is clamped with a second assignment when the month shrinks) or of all seven "
         "fields (object re-used for another instant); non-trivial: a seconds-based call on an object that was converted before and had a field "
-        "assigned since. Distinct = hash of the case.")
+        "(or its zone label) assigned since. Distinct = hash of the case.")
 
 SUBCHECKS = [
     SubCheck("days", body_day, enum=enum_days, rule="all 47482 days x 5 instants", qshards=8),
